@@ -342,6 +342,22 @@ def c09_w2f_enumeration(idx: List[int], lo: int, hi: int) -> int:
     return _w2f(p, lo, hi, 0)
 
 
+@cond('C08', bounds='callNovelORF --w2f-reassignment kernel: peptide of length <= 4 over {A, F, W} (every string, so a '
+      'W at the first / last / second-to-last residue and runs of W), UNBOUNDED symbolic length limits: exactly the '
+      '2^k - 1 W>F forms are added',
+      encodes=['moPepGen.svgraph.VariantPeptideDict.VariantPeptideDict.translational_modification / '
+               'find_codon_reassignments / is_valid_seq', 'moPepGen.seqvar.VariantRecord.create_variant_w2f'],
+      stubs=['Bio.SeqUtils.molecular_weight -> constant'], codes=CODES_C, timeout=600)
+def c08_w2f_forms(idx: List[int], lo: int, hi: int) -> int:
+    """
+    pre: 1 <= len(idx) <= 4
+    pre: all(0 <= i <= 2 for i in idx)
+    post: _ >= 0
+    """
+    p = [[65, 70, 87][concretize(i, 0, 2)] for i in idx]
+    return _w2f(p, lo, hi, 0)
+
+
 @cond('C05', bounds='enabling W>F only ADDS sequences, each carrying a W2F identifier: peptide of length <= 3 over '
       '{A, F, W}', encodes=['moPepGen.svgraph.VariantPeptideDict.VariantPeptideDict.translational_modification'],
       stubs=['Bio.SeqUtils.molecular_weight -> constant'], codes=CODES_C, timeout=300)
